@@ -107,6 +107,65 @@ def _same_objects_case(fb, t1, t2, la, lb, fresh_parser, omit=False):
     return second == ref
 
 
+def after_parse_empty(a1: int, a2: int, la: bool, lb: bool, string_form: bool) -> bool:
+    """
+    pre: 0 <= a1 < len(MENU) and 0 <= a2 < len(MENU)
+    post: _
+    """
+    # a parser that has parsed any two-token line is then given the EMPTY command line (argv with the script name only / an empty string)
+    from vf.sym import conc_bool, untraced
+    return untraced(_after_parse_empty_case, SK[PART["fa"]], SK[PART["fb"]], _pick(a1), _pick(a2), conc_bool(la), conc_bool(lb), conc_bool(string_form))
+
+
+def _after_parse_empty_case(fa, fb, t1, t2, la, lb, string_form):
+    def outcome(parser, raw, fmt, lenient):
+        try:
+            a = parser.parse(raw, fmt, lenient)
+        except ALLOWED as e:
+            return ("exc", type(e).__name__, str(e))
+        return ("ok", a.arguments(False), a.options(False), a.arguments(True), a.options(True))
+
+    empty = (lambda: StringArgs("")) if string_form else (lambda: ArgvArgs(["prog"]))
+    shared = DefaultArgsParser()
+    outcome(shared, ArgvArgs(["prog", t1, t2]), fa.fmt, la)
+    return outcome(shared, empty(), fb.fmt, lb) == outcome(DefaultArgsParser(), empty(), fb.fmt, lb)
+
+
+def _fresh_formats_case(order, lenient):
+    """One long-lived parser; every request brings a format that is built on the fly from long-lived elements and is dropped as soon as the
+    request is answered (so the next format may well live at the address of the previous one)."""
+    from clikit.api.args.format.args_format import ArgsFormat
+    from clikit.api.args.format.argument import Argument
+    from clikit.api.args.format.option import Option
+    kinds = [[Argument("a", Argument.REQUIRED), Option("flag", "f")],
+             [Option("opt", "o", Option.REQUIRED_VALUE)],
+             [Argument("x", Argument.OPTIONAL), Argument("y", Argument.OPTIONAL), Option("zz", "z")],
+             []]
+    lines = [["v", "-f"], ["-o", "w"], ["p", "q", "--zz"], ["extra"]]
+
+    def outcome(parser, line, fmt):
+        try:
+            a = parser.parse(ArgvArgs(["prog"] + line), fmt, lenient)
+            return ("ok", a.arguments(False), a.options(False))          # plain values only: nothing keeps the format alive
+        except ALLOWED as e:
+            return ("exc", type(e).__name__, str(e))
+
+    shared = DefaultArgsParser()
+    requests = [(k, line) for rep in range(3) for k in order for line in lines]
+    got = [outcome(shared, line, ArgsFormat(kinds[k])) for k, line in requests]
+    want = [outcome(DefaultArgsParser(), line, ArgsFormat(kinds[k])) for k, line in requests]
+    return got == want
+
+
+def fresh_formats(k1: int, k2: int, k3: int, k4: int, lenient: bool) -> bool:
+    """
+    pre: 0 <= k1 <= 3 and 0 <= k2 <= 3 and 0 <= k3 <= 3 and 0 <= k4 <= 3
+    post: _
+    """
+    from vf.sym import conc_bool, conc_int, untraced
+    return untraced(_fresh_formats_case, [conc_int(k, 0, 3) for k in (k1, k2, k3, k4)], conc_bool(lenient))
+
+
 def three_parses(a: int, b: int, c1: int, c2: int, lenient: bool) -> bool:
     """
     pre: 0 <= b < len(_menus()[0]) and 0 <= c1 < len(_menus()[1]) and 0 <= c2 < len(_menus()[1])
@@ -263,6 +322,11 @@ def conditions(tier):
     for fb in (("S1", "S2", "S6") if quick else ("S1", "S2", "S3", "S4", "S5", "S6", "S8")):
         conds.append({"name": "same_objects[%s]" % fb, "fn": same_objects, "timeout": t, "part": {"fb": fb},
                       "bounds": "one RawArgs object ([m, m'] from %r) and the format object %s parsed twice, each parse strict or lenient (the second also with the mode left out = strict), on one parser or two" % (MENU, fb)})
+    for fa, fb in [("S1", "S1"), ("S1", "S6"), ("S2", "S1"), ("S4", "S4")]:
+        conds.append({"name": "after_parse_empty[%s>%s]" % (fa, fb), "fn": after_parse_empty, "timeout": t, "part": {"fa": fa, "fb": fb},
+                      "bounds": "parse [m, m'] (m, m' in %r) with %s, then the EMPTY command line (argv or string form) with %s on the same parser, every pair of modes" % (MENU, fa, fb)})
+    conds.append({"name": "fresh_formats", "fn": fresh_formats, "timeout": t,
+                  "bounds": "one parser, 4 formats from a menu of 4 built on the fly, used for 4 lines each and dropped (garbage-collected) before the next is built; strict and lenient"})
     conds.append({"name": "default_ctor", "fn": default_ctor, "timeout": t, "bounds": "ArgvArgs() on sys.argv = ['prog', t1, t2], tokens of <= 2 chars over {-,f,o,x,=}: sys.argv untouched, wrappers independent"})
     conds.append({"name": "two_parses_twin", "fn": two_parses_twin, "timeout": t, "expect": "refute", "part": {"fa": "S1", "fb": "S1", "a1": 2}, "bounds": "reachability twin"})
     for sk in (("S1", "S4", "S5") if quick else ("S1", "S2", "S3", "S4", "S5", "S8")):
